@@ -9,6 +9,7 @@ from vlib.common import PROVED, REFUTED, UNKNOWN
 
 def solve(constraints, timeout):
     """-> (status, model, secs): unsat = PROVED, sat = REFUTED (+model)"""
+    timeout = backends.scaled_timeout(timeout)      # wall-clock limits scale with machine load (never flips a decided verdict)
     s = z3.Solver()
     s.set("timeout", timeout)
     s.add(*constraints)
